@@ -195,7 +195,7 @@ def build(u):
         m = re.search(r'pub proof fn (\w+)', p)
         if m:
             u.lemma(labels[m.group(1)], p)
-    u.fn(F, 'unescape', ret='out', canary=True,
+    u.fn(F, 'unescape', ret='out', canary=True, proof_label='C03.unescape.inv.output-so-far-plus-decoding-of-the-rest-is-the-decoding-of-the-whole',
          sig_rewrites=[(r'\bString\b', 'VString')],
          rewrites=[(r'\bString::with_capacity', 'VString::with_capacity'), WHILE_LET],
          proof_before=[(r'^\t\t\tcontinue;', f'            proof {{ assert(rest.subrange(1, rest.len() as int) =~= {REST}); '
